@@ -272,6 +272,54 @@ func checkC16(c *core.Ctx) {
 		}
 		return core.Pass()
 	})
+	// (4b) the config struct and its Initializers map are decoupled from the layer
+	c.Case("config/decoupled", true, func() core.Verdict {
+		w := enum.Generic([]int{3}, 861, 0.5, 3, true)
+		b := enum.Generic([]int{3}, 862, 0.5, 3, true)
+		inits := map[string]layers.Initializer{"Weight": fixedInit{t: w}, "Bias": fixedInit{t: b}}
+		conf := &layers.FCConfig{Inputs: 2, Outputs: 3, Initializers: inits}
+		fc, err := layers.NewFC(conf)
+		if err != nil {
+			return core.Fail("NewFC: %v", err)
+		}
+		conf.Inputs, conf.Outputs = 7, 1
+		inits["Weight"] = fixedInit{t: ref.FullOf([]int{1}, 99)}
+		delete(inits, "Bias")
+		x := enum.Generic([]int{2, 2}, 863, 0.5, 3, true)
+		y, err := fc.Forward(rt.Make(x, false))
+		if err != nil {
+			return core.Fail("Forward after the caller changed the config: %v", err)
+		}
+		if ok, msg := core.Close(rt.Read(y), fcModel(x, w, b), 100); !ok {
+			return core.Fail("layer output after the caller changed its config struct / initializer map: %s", msg)
+		}
+		if len(inits) != 1 {
+			return core.Fail("HARNESS")
+		}
+		// one (initially empty) Initializers map reused for a second layer of a
+		// different size: the second layer's default W is XavierUniform of ITS
+		// OWN Inputs/Outputs, i.e. within +-sqrt(6/(Inputs+Outputs))
+		xrand.Seed(8642)
+		m2 := map[string]layers.Initializer{}
+		if _, err := layers.NewFC(&layers.FCConfig{Inputs: 1, Outputs: 1, Initializers: m2}); err != nil {
+			return core.Fail("NewFC: %v", err)
+		}
+		big, err := layers.NewFC(&layers.FCConfig{Inputs: 300, Outputs: 300, Initializers: m2})
+		if err != nil {
+			return core.Fail("NewFC: %v", err)
+		}
+		bound := math.Sqrt(6. / 600.)
+		outside := 0
+		for _, v := range rt.Read(big.Weight).V {
+			if !(v >= -bound && v < bound) {
+				outside++
+			}
+		}
+		if outside > 0 {
+			return core.Fail("second layer (Inputs 300, Outputs 300) built from the same Initializers map as a 1x1 layer: %d of 300 default weights lie outside +-sqrt(6/600) = %.4f (the first layer's default initializer was written into the caller's map: map now has %d entries)", outside, bound, len(m2))
+		}
+		return core.Pass()
+	})
 	// (5) every history of <= 4 (thorough 5) events over {replace W (2 values), replace B (2 values), Forward}
 	depth := 4
 	if c.Thorough() {
